@@ -62,7 +62,7 @@ def expectation_lines(tc):
     return []
 
 
-def md_block(tc, compat=False):
+def md_block(tc, compat=False, doc_stream=False):
     cfg = []
     if tc["t"] != NONE:
         cfg.append(f"timeout: {_dur(tc['t'])}")
@@ -72,7 +72,9 @@ def md_block(tc, compat=False):
         cfg.append(f"wait: {_dur(tc['wait'])}")
     if tc["skip"] != NONE:
         cfg.append(f"skip_document_code: {tc['skip']}")
-    if tc["stream"] != "stdout":
+    # the stream is written inline when it is not the format default -- or always (also a plain `stdout`) in a document
+    # that has defaults.output_stream, unless this test case takes its stream from there (sinline = false)
+    if tc.get("sinline", True) and (tc["stream"] != "stdout" or doc_stream):
         cfg.append(f"output_stream: {tc['stream']}")
     info = "scrut" + (" {" + ", ".join(cfg) + "}" if cfg else "")
     lines = [f"# {tc['id']}", "", f"```{info}", f"$ {command_of(tc, 'cram' if compat else 'md')}"] + expectation_lines(tc)
@@ -105,12 +107,14 @@ def render_doc(doc, tests, front=None, compat=False):
             defs.append(f"  skip_document_code: {doc['skipdef']}")
         if doc.get("tdef", NONE) != NONE:
             defs.append(f"  timeout: {_dur(doc['tdef'])}")
+        if doc.get("sdef", "unset") != "unset":
+            defs.append(f"  output_stream: {doc['sdef']}")
         if defs:
             fm += ["defaults:"] + defs
         if fm:
             out += ["---"] + fm + ["---", ""]
         for tc in tests:
-            out += md_block(tc, compat)
+            out += md_block(tc, compat, doc_stream=doc.get("sdef", "unset") != "unset")
     else:
         for tc in tests:
             out += cram_block(tc)
